@@ -457,6 +457,7 @@ MUTANTS += [
       "beta = min(max(beta_star, beta_prev + min_step), 1.0)\n            if self.adaptive_min_step and beta_star < 1.0:\n                min_step = min_step * (1 - beta_prev) / (1 - beta)", "C06.guard"),
 ]
 NEUTRALS = [
+    __import__("aspire_sa.rules.smcloop", fromlist=["HELPER_NEUTRAL"]).HELPER_NEUTRAL,
     M("snap to 1.0 applied after both branches (still increasing, still ends at 1, floor still honoured)", _B,
       "            if beta >= 1.0 - 0.5 * beta_step:\n                beta = 1.0\n", "", more=[("beta = max(beta_star, beta_prev + min_step)\n            beta = min(beta, 1.0)\n        return beta, min_step", "beta = max(beta_star, beta_prev + min_step)\n        if beta >= 1.0 - 0.5 * beta_step:\n            beta = 1.0\n        return min(beta, 1.0), min_step")]),
     M("fixed step snap with another slack", _B, "if beta >= 1.0 - 0.5 * beta_step:", "if beta + 0.25 * beta_step >= 1.0:", within="SMCSampler.determine_beta"),
